@@ -269,6 +269,8 @@ def run_count(blt, opts, budget=10, want_ballots=True, lowprec=None, keepE=False
                 if tag == 'log':
                     pendinglogs.append(mc)
                     return
+                if tag not in ('elect', 'defeat', 'unpend'):
+                    subj[0] = 0      # a silent unpend() (no message) leaves no subject behind
                 cs = A['cstate']
 
                 def g(c, k):
